@@ -76,6 +76,26 @@ func (g *G) aliasingSeq() []Cmd {
 // (a member list, a position, a length) and judged fresh by its size is stale by then.
 func (g *G) swapSeq(family string) []Cmd {
 	k := g.Key() + ":sw"
+	if g.R.Intn(2) == 0 {
+		// the same element goes out and comes back (a slot, a position or a cached member that was left behind for it
+		// is live again), asked for several times because the replies may be random
+		switch family {
+		case FSet:
+			return []Cmd{c("DEL", k), c("SADD", k, "a", "b", "c"), c("SRANDMEMBER", k, "3"), c("SREM", k, "b"), c("SRANDMEMBER", k, "3"), c("SADD", k, "b"),
+				c("SRANDMEMBER", k, "3"), c("SRANDMEMBER", k, "2"), c("SRANDMEMBER", k, "5"), c("SRANDMEMBER", k, "3"), c("SPOP", k, "3"), c("SCARD", k)}
+		case FHash:
+			return []Cmd{c("DEL", k), c("HSET", k, "f", "1", "g", "2", "h", "3"), c("HRANDFIELD", k, "3"), c("HDEL", k, "g"), c("HRANDFIELD", k, "2"), c("HSET", k, "g", "4"),
+				c("HRANDFIELD", k, "3"), c("HRANDFIELD", k, "3", "WITHVALUES"), c("HRANDFIELD", k, "2"), c("HRANDFIELD", k, "5"), c("HRANDFIELD", k, "3"), c("HDEL", k, "f"), c("HINCRBY", k, "f", "7"),
+				c("HRANDFIELD", k, "3"), c("HRANDFIELD", k, "4", "WITHVALUES"), c("HKEYS", k), c("HLEN", k)}
+		case FList:
+			return []Cmd{c("DEL", k), c("RPUSH", k, "a", "b", "c", "d", "e", "f"), c("LINDEX", k, "-1"), c("RPOP", k), c("RPUSH", k, "x", "y"), c("LINDEX", k, "5"), c("LINDEX", k, "4"), c("LINDEX", k, "3"),
+				c("LINDEX", k, "0"), c("LPOP", k), c("LPUSH", k, "p", "q"), c("LINDEX", k, "0"), c("LINDEX", k, "1"), c("LINDEX", k, "2"),
+				c("LINDEX", k, "-1"), c("LMOVE", k, k, "RIGHT", "LEFT"), c("LINDEX", k, "-1"), c("LINDEX", k, "0"), c("LRANGE", k, "0", "-1")}
+		case FZSet:
+			return []Cmd{c("DEL", k), c("ZADD", k, "1", "a", "2", "b", "3", "c"), c("ZRANK", k, "b"), c("ZREM", k, "b"), c("ZRANGE", k, "0", "-1"), c("ZADD", k, "9", "b"),
+				c("ZRANK", k, "b"), c("ZRANGE", k, "0", "-1", "WITHSCORES"), c("ZREM", k, "a"), c("ZADD", k, "2", "a"), c("ZRANK", k, "a"), c("ZRANGE", k, "0", "-1")}
+		}
+	}
 	switch family {
 	case FSet:
 		out := []Cmd{c("DEL", k), c("SADD", k, "a", "b", "c"), c("SRANDMEMBER", k, "5"), c("SRANDMEMBER", k)}
